@@ -29,9 +29,10 @@ def end_case() -> list[dict]:
     return out
 
 
-def breach(probe: str, msg: str) -> None:
+def breach(probe: str, msg: str, mech: str | None = None) -> None:
+    """Record a breach observed by `probe`; `mech` names a narrower mechanism of the same probe (used for known findings)."""
     _STATE[probe]["breaches"] += 1
-    _BREACHES.append({"mech": f"probe.{probe}", "msg": msg[:1500]})
+    _BREACHES.append({"mech": f"probe.{mech or probe}", "msg": msg[:1500]})
 
 
 def _reg(name: str) -> dict:
